@@ -257,10 +257,93 @@ func mkCmp(op string, x, y *Term) *Term {
 	if op == "bvult" && y.op == "const" && y.k == 0 {
 		return termFalse
 	}
+	if (op == "bvult" || op == "bvule") && x.w <= 64 && (x.op == "const" || y.op == "const") {
+		zx, ox := knownBits(x, 4)
+		zy, oy := knownBits(y, 4)
+		m := mask(x.w)
+		minX, maxX, minY, maxY := ox, ^zx&m, oy, ^zy&m
+		if op == "bvult" {
+			if maxX < minY {
+				return termTrue
+			}
+			if minX >= maxY {
+				return termFalse
+			}
+		} else {
+			if maxX <= minY {
+				return termTrue
+			}
+			if minX > maxY {
+				return termFalse
+			}
+		}
+	}
 	if op == "bvule" && x.op == "const" && x.k == 0 {
 		return termTrue
 	}
 	return node(op, 0, x, y)
+}
+
+// knownBits returns the bits of t known to be zero and known to be one (t.w <= 64); a
+// cheap, depth-limited abstraction used to fold comparisons against constants.
+func knownBits(t *Term, depth int) (zeros, ones uint64) {
+	if t.w == 0 || t.w > 64 {
+		return 0, 0
+	}
+	m := mask(t.w)
+	if t.op == "const" {
+		return ^t.k & m, t.k
+	}
+	if depth <= 0 {
+		return 0, 0
+	}
+	switch t.op {
+	case "bvand":
+		z1, o1 := knownBits(t.args[0], depth-1)
+		z2, o2 := knownBits(t.args[1], depth-1)
+		return (z1 | z2) & m, o1 & o2
+	case "bvor":
+		z1, o1 := knownBits(t.args[0], depth-1)
+		z2, o2 := knownBits(t.args[1], depth-1)
+		return z1 & z2, (o1 | o2) & m
+	case "zext":
+		z, o := knownBits(t.args[0], depth-1)
+		return (z | (m &^ mask(t.args[0].w))) & m, o
+	case "concat":
+		hi, lo := t.args[0], t.args[1]
+		if hi.w+lo.w > 64 {
+			return 0, 0
+		}
+		z1, o1 := knownBits(hi, depth-1)
+		z2, o2 := knownBits(lo, depth-1)
+		return (z1<<uint(lo.w) | z2) & m, (o1<<uint(lo.w) | o2) & m
+	case "extract":
+		if t.args[0].w > 64 {
+			return 0, 0
+		}
+		z, o := knownBits(t.args[0], depth-1)
+		return (z >> uint(t.p2)) & m, (o >> uint(t.p2)) & m
+	case "ite":
+		z1, o1 := knownBits(t.args[1], depth-1)
+		z2, o2 := knownBits(t.args[2], depth-1)
+		return z1 & z2, o1 & o2
+	case "bvadd":
+		// constant + value whose set bits cannot carry into the constant's bits
+		x, y := t.args[0], t.args[1]
+		if x.op == "const" {
+			x, y = y, x
+		}
+		if y.op == "const" {
+			z, _ := knownBits(x, depth-1)
+			maxX := ^z & m
+			if maxX&y.k == 0 && maxX+y.k >= maxX && (maxX+y.k)&^m == 0 {
+				// no overlap: behaves like or
+				_, o := knownBits(x, depth-1)
+				return z &^ y.k, o | y.k
+			}
+		}
+	}
+	return 0, 0
 }
 
 func mkEq(x, y *Term) *Term {
@@ -277,6 +360,16 @@ func mkEq(x, y *Term) *Term {
 	}
 	if sameTerm(x, y) {
 		return termTrue
+	}
+	if x.w > 0 && x.w <= 64 && (x.op == "const" || y.op == "const") {
+		c, v := x, y
+		if y.op == "const" {
+			c, v = y, x
+		}
+		z, o := knownBits(v, 4)
+		if c.k&z != 0 || ^c.k&o != 0 {
+			return termFalse
+		}
 	}
 	if x.w == 0 {
 		if x.isTrue() {
@@ -521,6 +614,13 @@ func mkExtract(x *Term, hi, lo int) *Term {
 	case "ite":
 		if x.args[1].op == "const" && x.args[2].op == "const" {
 			return mkIte(x.args[0], mkExtract(x.args[1], hi, lo), mkExtract(x.args[2], hi, lo))
+		}
+	}
+	if x.w <= 64 {
+		z, o := knownBits(x, 4)
+		fm := mask(w)
+		if ((z|o)>>uint(lo))&fm == fm {
+			return mkConst((o>>uint(lo))&fm, w)
 		}
 	}
 	t := node("extract", w, x)
